@@ -29,7 +29,13 @@ type vf44Obs struct {
 	Items []int `json:"items"`
 }
 
-func vf44Call(n int, ipp, page string) vf44Obs {
+func vf44Call(n int, ipp, page string) (obs vf44Obs) {
+	// a panic of the function under test is an observation (no page of any list is [-1] with page count -1)
+	defer func() {
+		if r := recover(); r != nil {
+			obs = vf44Obs{Err: false, PC: -1, Items: []int{-1}}
+		}
+	}()
 	items := make([]int, n)
 	for i := range items {
 		items[i] = i + 1
